@@ -678,7 +678,7 @@ def replay_from_file(path):
     if not binary:
         print("replay harness does not build against this tree")
         return False
-    if rec.get("mode") in ("open-check", "reopen-check"):
+    if rec.get("mode") in ("open-check", "reopen-check", "truncate-check", "create-check"):
         d = os.path.join(scratch, "opencheck")
         os.makedirs(d, exist_ok=True)
         pr = subprocess.run([binary, "--" + rec["mode"], d], stdout=subprocess.PIPE, stderr=subprocess.STDOUT, text=True)
